@@ -45,6 +45,7 @@ class RuleResult:
         self.notes = []
         self.functions = set()
         self.paths = 0
+        self.floor_failures = []
 
     def instance(self, label, ok=True, **info):
         for prev in self.instances:
@@ -72,7 +73,10 @@ class RuleResult:
         self.floor = floor
         self.found = found
         if found < floor:
-            raise AnalysisError("%s: found %d %s, expected at least %d (anchor lost?)" % (self.rule, found, what, floor))
+            # decided later (registry.run_rules): a missing instance is an analysis error unless the
+            # rule already explains it by a violation
+            self.floor_failures.append("%s: found %d %s, expected at least %d (anchor lost?)" % (
+                self.rule, found, what, floor))
 
     def to_json(self):
         return {
